@@ -1186,6 +1186,58 @@ enum Holder<C: Coll> {
     Mirror(C::Mirror),
 }
 
+/// Subscription obtained from a mirror (`Mirrored*::subscribe`): `<source sid> <mode> <where> <kind>`.
+/// `race`: taken directly after a call of the collection, while the source mirror may still have events
+/// of that call in flight (only the property predicate is checked for such subscriptions).
+#[allow(clippy::too_many_arguments)]
+async fn do_sub2<C: Coll>(
+    rest: &str, race: bool, holders: &mut Vec<(usize, Holder<C>)>, link: &mut Option<Link<C::Sub>>, sid: &mut usize,
+    f13: &mut HashSet<usize>, st: &mut Stats, out: &mut String,
+) {
+    let w: Vec<&str> = rest.split(' ').collect();
+    let src: usize = w[0].parse().unwrap();
+    let incr = w[1] == "incr";
+    let remote = w[2] == "remote";
+    let is_mirror = w[3] == "mirror";
+    let got = match holders.iter().find(|(s, _)| *s == src) {
+        Some((_, Holder::Mirror(m))) if !f13.contains(&src) => C::mirror_subscribe(m, incr, 1_000_000).await,
+        _ => None,
+    };
+    if let Some(mut sub) = got {
+        if remote {
+            if link.is_none() {
+                *link = Some(Link::new().await);
+            }
+            sub = link.as_mut().unwrap().transfer(sub).await;
+        }
+        let _ = writeln!(
+            out,
+            "sub {sid} {} {} {} src={src}{}",
+            if incr { "incr" } else { "snap" },
+            if remote { "remote" } else { "local" },
+            if is_mirror { "mirror" } else { "hand" },
+            if race { " race" } else { "" }
+        );
+        st.hit(&format!("sub2{}_{}_{}_{}", if race { "race" } else { "" }, w[1], w[2], w[3]));
+        let src_done = match holders.iter().find(|(s, _)| *s == src) {
+            Some((_, Holder::Mirror(m))) => matches!(C::borrow(m).await, Ok((_, _, true))),
+            _ => false,
+        };
+        if (src_done || race) && incr && is_mirror {
+            // (a racing incremental subscription may see the source's Done only later; never use it as a source)
+            f13.insert(*sid);
+        }
+        if is_mirror {
+            holders.push((*sid, Holder::Mirror(C::mirror(sub, 1_000_000))));
+        } else {
+            holders.push((*sid, Holder::Hand(sub, incr)));
+        }
+    } else {
+        st.hit("sub2_unavailable");
+    }
+    *sid += 1;
+}
+
 /// Script lines: `init <c>`, `sub <snap|incr> <local|remote> <hand|mirror>`, `op <text>`, `done`,
 /// `gen <n>` (n generated operations), in any order after `init`.
 async fn run_c13<C: Coll>(id: &str, script: &[String], r: &mut Rng, st: &mut Stats, out: &mut String) {
@@ -1257,49 +1309,13 @@ async fn run_c13<C: Coll>(id: &str, script: &[String], r: &mut Rng, st: &mut Sta
                 sid += 1;
             }
             "sub2" => {
-                // subscription obtained from a mirror (`Mirrored*::subscribe`): `sub2 <source sid> <mode> <where> <kind>`
-                let w: Vec<&str> = rest.split(' ').collect();
-                let src: usize = w[0].parse().unwrap();
-                let incr = w[1] == "incr";
-                let remote = w[2] == "remote";
-                let is_mirror = w[3] == "mirror";
                 settle().await;
-                let got = match holders.iter().find(|(s, _)| *s == src) {
-                    Some((_, Holder::Mirror(m))) if !f13.contains(&src) => C::mirror_subscribe(m, incr, 1_000_000).await,
-                    _ => None,
-                };
-                if let Some(mut sub) = got {
-                    if remote {
-                        if link.is_none() {
-                            link = Some(Link::new().await);
-                        }
-                        sub = link.as_mut().unwrap().transfer(sub).await;
-                    }
-                    let _ = writeln!(
-                        out,
-                        "sub {sid} {} {} {} src={src}",
-                        if incr { "incr" } else { "snap" },
-                        if remote { "remote" } else { "local" },
-                        if is_mirror { "mirror" } else { "hand" }
-                    );
-                    st.hit(&format!("sub2_{}_{}_{}", w[1], w[2], w[3]));
-                    let src_done = match holders.iter().find(|(s, _)| *s == src) {
-                        Some((_, Holder::Mirror(m))) => matches!(C::borrow(m).await, Ok((_, _, true))),
-                        _ => false,
-                    };
-                    if src_done && incr && is_mirror {
-                        f13.insert(sid);
-                    }
-                    if is_mirror {
-                        holders.push((sid, Holder::Mirror(C::mirror(sub, 1_000_000))));
-                    } else {
-                        holders.push((sid, Holder::Hand(sub, incr)));
-                    }
-                    sid += 1;
-                } else {
-                    st.hit("sub2_unavailable");
-                    sid += 1;
-                }
+                do_sub2::<C>(rest, false, &mut holders, &mut link, &mut sid, &mut f13, st, out).await;
+            }
+            "sub2r" => {
+                // not directly after a call: same as sub2
+                settle().await;
+                do_sub2::<C>(rest, false, &mut holders, &mut link, &mut sid, &mut f13, st, out).await;
             }
             "gen" => {
                 let c = coll.as_ref().unwrap();
@@ -1340,6 +1356,13 @@ async fn run_c13<C: Coll>(id: &str, script: &[String], r: &mut Rng, st: &mut Sta
                 let _ = writeln!(out, "res {}", if res.is_ok() { "ok" } else { "panic" });
                 if res.is_err() {
                     st.hit(if was_done { "panic_after_done" } else { "panic_index" });
+                }
+                while queue.front().map(|l| l == "gen 0").unwrap_or(false) {
+                    queue.pop_front();
+                }
+                while queue.front().map(|l| l.starts_with("sub2r ")).unwrap_or(false) {
+                    let l = queue.pop_front().unwrap();
+                    do_sub2::<C>(&l[6..], true, &mut holders, &mut link, &mut sid, &mut f13, st, out).await;
                 }
                 settle().await;
                 let p = probe.as_mut().unwrap();
@@ -1452,7 +1475,7 @@ fn gen_c13_script<C: Coll>(r: &mut Rng) -> Vec<String> {
                 if l.ends_with("mirror") {
                     mirrors.push(n_sub);
                 }
-                s.push(format!("sub2 {src} {}", &l[4..]));
+                s.push(format!("{} {src} {}", if r.chance(1, 2) { "sub2r" } else { "sub2" }, &l[4..]));
                 n_sub += 1;
             }
         }
